@@ -87,8 +87,8 @@ Section Inst.
       intros Hi. unfold vB. destruct (Nat.eqb_spec i 0); [lia|].
       rewrite (vF_unfold O M q qd i W Hi). rewrite w_S by exact Hi. unfold vJF.
       destruct (Nat.eqb_spec (getlam M i) 0); [|reflexivity].
-      assert (Z : st_apply O (XlF O M q i) (svzero O) = svzero O) by (l1_split; ring).
-      rewrite Z. l1_split; ring.
+      assert (Z : forall X : ST T, st_apply O X (svzero O) = svzero O) by (l1_split; ring).
+      rewrite Z. generalize (cols_mulv O (SF O M q i) (qd_seg O M i qd)). intros y. destruct y. cbv_sc. f_equal; ring.
     Qed.
 
     (* body spatial Jacobian of a movable body times qdot = the body's spatial velocity (body coordinates) *)
@@ -112,5 +112,123 @@ Section Inst.
         rewrite (apply_apply_inv O) by (apply w_rot; exact Hb).
         unfold vB. destruct (Nat.eqb_spec b 0); [lia|]. reflexivity.
     Qed.
+
+    (* the point Jacobians: translating the base-frame velocity to the point = the point velocity of CalcPointVelocity *)
+    Lemma point_frame_identity (X : ST T) (p : V3 T) (x : SV T) : m3rot O (stE X) ->
+      st_apply O (mkST (m3id O) (v3add O (str X) (m3Tv O (stE X) p))) (st_apply O (st_inv O X) x) =
+      st_apply O (mkST (m3T (stE X)) p) x.
+    Proof.
+      intros Hr. pose proof (proj1 Hr) as Ho.
+      rewrite <- (@st_apply_mul T O FL) by (cbn [st_inv stE]; apply (rot_T O); exact Hr).
+      f_equal. destruct X as [E r]. unfold st_mul, st_inv. cbn [stE str]. f_equal.
+      - destruct E. cbv_sc. f_equal; ring.
+      - pose proof (orth_vT O E p Ho) as Hv. set (qv := m3Tv O E p) in *.
+        rewrite <- Hv. clearbody qv. clear Hv Ho Hr. destruct E, r, qv. cbv_sc. f_equal; ring.
+    Qed.
+    Lemma movable_not_fixed (id : N) : (id < fixed_disc)%N -> is_fixed_id M id = false.
+    Proof. intros Hid. unfold is_fixed_id. apply N.leb_gt in Hid. rewrite Hid. reflexivity. Qed.
+    Lemma point_X_movable (id : N) p : (id < fixed_disc)%N ->
+      point_X O M w (N.to_nat id) p = mkST (m3T (stE (gXb O w (N.to_nat id)))) p.
+    Proof.
+      intros Hid. unfold point_X, world_orient.
+      replace (N.leb fixed_disc (N.of_nat (N.to_nat id))) with false by (symmetry; apply N.leb_gt; lia).
+      rewrite N2Nat.id. reflexivity.
+    Qed.
+    Theorem point_jacobian6_times_qd (id : N) (p : V3 T) : (id < fixed_disc)%N -> 0 < N.to_nat id < NB ->
+      mvmul O (point_jacobian6 O M w id p (mzeros t0 6 (dof_count M))) qd =
+      svlist (st_apply O (point_X O M w (N.to_nat id) p) (vF O M q qd (N.to_nat id))).
+    Proof.
+      intros Hid Hb. set (b := N.to_nat id) in *.
+      pose proof (movable_not_fixed id Hid) as Hfix.
+      unfold point_jacobian6, ref_body. rewrite Hfix. cbn [fst]. fold b.
+      set (pt := mkST (m3id O) (b2b O M w id p)).
+      apply (list_ext t0).
+      - rewrite (mvmul_length O), jac_fill_length. unfold mzeros. rewrite repeat_length.
+        destruct (st_apply O _ _); reflexivity.
+      - rewrite (mvmul_length O), jac_fill_length. unfold mzeros at 1. rewrite repeat_length. intros r Hr6.
+        assert (Hr : r < length (jac_fill O M w (mzeros t0 6 (dof_count M)) b (fun s => svlist (st_apply O pt s))))
+          by (rewrite jac_fill_length; unfold mzeros; rewrite repeat_length; exact Hr6).
+        rewrite (nth_mvmul O) by exact Hr.
+        pose proof (jac_fill_times_qd O M W w qd Hqd w_Slen w_rot (XlF O M q) vB w_HX eq_refl w_Hv 6 pt
+                      (fun x => svlist x) (fun x => match x with mkSV _ _ _ _ _ _ => eq_refl end) 0
+                      (fun x r _ => eq_refl) b r Hb Hr6) as K.
+        cbn [Nat.add] in K. rewrite K. unfold Vb. destruct (Nat.eqb_spec b 0); [lia|].
+        unfold vB. destruct (Nat.eqb_spec b 0); [lia|].
+        unfold pt, b2b. replace (N.leb fixed_disc id) with false by (symmetry; apply N.leb_gt; exact Hid). fold b.
+        rewrite point_frame_identity by (apply w_rot; exact Hb).
+        unfold b. rewrite (point_X_movable id p Hid). reflexivity.
+    Qed.
+    Theorem point_jacobian_times_qd (id : N) (p : V3 T) : (id < fixed_disc)%N -> 0 < N.to_nat id < NB ->
+      mvmul O (point_jacobian O M w id p (mzeros t0 3 (dof_count M))) qd =
+      v3list (svlin (st_apply O (point_X O M w (N.to_nat id) p) (vF O M q qd (N.to_nat id)))).
+    Proof.
+      intros Hid Hb. set (b := N.to_nat id) in *.
+      pose proof (movable_not_fixed id Hid) as Hfix.
+      unfold point_jacobian, ref_body. rewrite Hfix. cbn [fst]. fold b.
+      set (pt := mkST (m3id O) (b2b O M w id p)).
+      apply (list_ext t0).
+      - rewrite (mvmul_length O), jac_fill_length. unfold mzeros. rewrite repeat_length. reflexivity.
+      - rewrite (mvmul_length O), jac_fill_length. unfold mzeros at 1. rewrite repeat_length. intros r Hr3.
+        assert (Hr : r < length (jac_fill O M w (mzeros t0 3 (dof_count M)) b (fun s => v3list (svlin (st_apply O pt s)))))
+          by (rewrite jac_fill_length; unfold mzeros; rewrite repeat_length; exact Hr3).
+        rewrite (nth_mvmul O) by exact Hr.
+        pose proof (jac_fill_times_qd O M W w qd Hqd w_Slen w_rot (XlF O M q) vB w_HX eq_refl w_Hv 3 pt
+                      (fun x => v3list (svlin x)) (fun x => eq_refl) 3
+                      (fun x r Hr' => match x with mkSV _ _ _ _ _ _ =>
+                         match r as r0 return r0 < 3 -> nth r0 (v3list (svlin (mkSV _ _ _ _ _ _))) t0 = _ with
+                         | 0 => fun _ => eq_refl | 1 => fun _ => eq_refl | 2 => fun _ => eq_refl
+                         | S (S (S k)) => fun H => match (Nat.nlt_0_r _ (proj2 (Nat.succ_lt_mono _ _) (proj2 (Nat.succ_lt_mono _ _) (proj2 (Nat.succ_lt_mono _ _) H)))) with end
+                         end Hr' end) b r Hb Hr3) as K.
+        rewrite K. unfold Vb. destruct (Nat.eqb_spec b 0); [lia|].
+        unfold vB. destruct (Nat.eqb_spec b 0); [lia|].
+        unfold pt, b2b. replace (N.leb fixed_disc id) with false by (symmetry; apply N.leb_gt; exact Hid). fold b.
+        rewrite point_frame_identity by (apply w_rot; exact Hb).
+        unfold b. rewrite (point_X_movable id p Hid).
+        destruct (st_apply O _ _) as [a0 a1 a2 a3 a4 a5]. destruct r as [|[|[|r]]]; try reflexivity; lia.
+    Qed.
   End WithWS.
+
+  (* end to end: Jacobian from one workspace, CalcPointVelocity from any other *)
+  Lemma good_zero_v0 (w : WS) : Good O M w -> Good O M (zero_v0 O w).
+  Proof.
+    intros [L G]. split.
+    - unfold ws_len, zero_v0 in *; cbn. rewrite upd_length. exact L.
+    - intros j Hj. destruct (G j Hj) as [A B]. split; [revert A; apply WsInvJ_ext; reflexivity | revert B; apply kind_dof_ext; reflexivity].
+  Qed.
+  Lemma point_velocity6_value (w1 : WS) (id : N) (p : V3 T) : Good O M w1 -> (id < fixed_disc)%N -> 0 < N.to_nat id < NB ->
+    forall w0 : WS, Good O M w0 ->
+    snd (calc_point_velocity6 O M w1 q qd id p true) =
+    st_apply O (point_X O M (ukc_q O M w0 q) (N.to_nat id) p) (vF O M q qd (N.to_nat id)).
+  Proof.
+    intros G1 Hid Hi w0 G0.
+    unfold calc_point_velocity6. cbn [snd]. unfold point_velocity6_nk, ref_point.
+    rewrite (movable_not_fixed id Hid).
+    pose proof (ukc_q_good O M _ q W (good_zero_v0 _ G1)) as Gq1.
+    destruct (ukc_qd_spec O M _ q qd W Gq1) as (_ & X1 & V1).
+    rewrite (V1 _ Hi). f_equal.
+    unfold point_X, world_orient.
+    replace (N.leb fixed_disc (N.of_nat (N.to_nat id))) with false by (symmetry; apply N.leb_gt; lia).
+    rewrite !N2Nat.id. unfold gXb. rewrite X1.
+    fold (gXb O (ukc_q O M (zero_v0 O w1) q) (N.to_nat id)). fold (gXb O (ukc_q O M w0 q) (N.to_nat id)).
+    rewrite (ukc_q_ws_independent O M (zero_v0 O w1) w0 q _ W (proj1 (good_zero_v0 _ G1)) (proj1 G0) Hi).
+    reflexivity.
+  Qed.
+  Theorem point_jacobian6_is_point_velocity (w0 w1 : WS) (id : N) (p : V3 T) : Good O M w0 -> Good O M w1 ->
+    (id < fixed_disc)%N -> 0 < N.to_nat id < NB ->
+    mvmul O (point_jacobian6 O M (ukc_q O M w0 q) id p (mzeros t0 6 (dof_count M))) qd =
+    svlist (snd (calc_point_velocity6 O M w1 q qd id p true)).
+  Proof.
+    intros G0 G1 Hid Hi. rewrite (point_jacobian6_times_qd w0 G0 id p Hid Hi).
+    rewrite (point_velocity6_value w1 id p G1 Hid Hi w0 G0). reflexivity.
+  Qed.
+  Theorem point_jacobian_is_point_velocity (w0 w1 : WS) (id : N) (p : V3 T) : Good O M w0 -> Good O M w1 ->
+    (id < fixed_disc)%N -> 0 < N.to_nat id < NB ->
+    mvmul O (point_jacobian O M (ukc_q O M w0 q) id p (mzeros t0 3 (dof_count M))) qd =
+    v3list (snd (calc_point_velocity O M w1 q qd id p true)).
+  Proof.
+    intros G0 G1 Hid Hi. rewrite (point_jacobian_times_qd w0 G0 id p Hid Hi).
+    unfold calc_point_velocity.
+    pose proof (point_velocity6_value w1 id p G1 Hid Hi w0 G0) as K.
+    destruct (calc_point_velocity6 O M w1 q qd id p true) as [w2 v]. cbn [snd] in *. rewrite K. reflexivity.
+  Qed.
 End Inst.
